@@ -36,7 +36,16 @@ fn main() {
             }
         };
         let uses_eoi = g.text.contains("EOI");
-        writeln!(s, "#[allow(non_camel_case_types, non_snake_case, clippy::all)]\npub mod g{n} {{\n    #[derive(pest_derive::Parser)]\n    #[grammar_inline = r####\"{}\"####]\n    pub struct P;\n    pub fn rule(n: &str) -> Option<Rule> {{\n        match n {{", g.text).unwrap();
+        // the "grammar-files" class goes through the derive's other entry point, #[grammar = "file"]
+        // (the file holds the text byte for byte: raw CR, CRLF, BOM-free UTF-8)
+        let attr = if g.class == "grammar-files" {
+            let path = std::path::PathBuf::from(std::env::var("OUT_DIR").unwrap()).join(format!("g{n}.pest"));
+            std::fs::write(&path, &g.text).unwrap();
+            format!("#[grammar = \"{}\"]", path.display())
+        } else {
+            format!("#[grammar_inline = r####\"{}\"####]", g.text)
+        };
+        writeln!(s, "#[allow(non_camel_case_types, non_snake_case, clippy::all)]\npub mod g{n} {{\n    #[derive(pest_derive::Parser)]\n    {attr}\n    pub struct P;\n    pub fn rule(n: &str) -> Option<Rule> {{\n        match n {{").unwrap();
         for r in &rules {
             writeln!(s, "            \"{r}\" => Some(Rule::r#{r}),").unwrap();
         }
@@ -50,8 +59,8 @@ fn main() {
         }
         writeln!(
             table,
-            "    Entry {{ grammar: r####\"{}\"####, class: \"{}\", alphabet: \"{}\", rules: &[{}], run: |r, i| c02core::run_generated::<g{n}::P, g{n}::Rule>(g{n}::rule(r), i) }},",
-            g.text,
+            "    Entry {{ grammar: \"{}\", class: \"{}\", alphabet: \"{}\", rules: &[{}], run: |r, i| c02core::run_generated::<g{n}::P, g{n}::Rule>(g{n}::rule(r), i) }},",
+            g.text.chars().flat_map(|c| c.escape_default()).collect::<String>(),
             g.class,
             g.alphabet.chars().flat_map(|c| c.escape_default()).collect::<String>(),
             names.iter().map(|x| format!("\"{x}\"")).collect::<Vec<_>>().join(", ")
